@@ -1524,7 +1524,9 @@ def kw_wf(S, I, variant):
 
 @script(["C11", "C01"], "NonnegMean.kaplan_kolmogorov/well-formed", variants=(("padded",), ("any",)))
 def kk_wf(S, I, variant):
-    """'padded': every x_i + g > 0 (g > 0, or no zero observation): proved.  'any': recorded known finding K4 (NaN)."""
+    """'padded': every x_i + g > 0 (g > 0, or no zero observation): proved.  'any': recorded known finding K4 (NaN).
+    The invariant is stated over the padded data the code hands to sjm (x+g, null mean t+g): if the padded null mean before
+    draw k-1 is >= 0 then the running product over k factors is > 0 (or +inf)."""
     install_contracts(I)
     padded = variant[0] == "padded"
     n, u, t, Nv, Nspec = base_regime(S, True)
@@ -1540,46 +1542,59 @@ def kk_wf(S, I, variant):
     ro = S.boolean("random_order")
     self = mk_self(I, {"u": u, "N": Nv, "t": t, "g": g, "random_order": ro})
     fn = I.get(MOD, "NonnegMean.kaplan_kolmogorov")
-    PS = x.fold("+")
-    mg = lambda k: xadd(mu_spec(Nspec, t, PS, k), g)      # null mean of the padded data before draw k
-
-    # invariant: if the padded null mean before draw k-1 is >= 0 the running product over k factors is > 0 (or +inf)
-    def factor_ok(k, Fk):
-        return bimp(band(icmp(">=", k, 1), xcmp(">=", mg(isub(k, 1)), XR.const(0))), pos_or_inf(Fk))
-
-    shift_holder = {}
-
-    def pre(k):
-        sh = shift_holder.get("f")
-        if sh:
-            for q in (k, k + 1, k - 1):
-                sh(q)
-
-    def extra_inst(q):
-        pre(zi(q))
-
-    if not isinstance(n, int):
-        # the code calls sjm on x+g: relate its running sums to the input's (needs the padded array: run once to get it)
-        pass
-    generic_wf_kk(S, I, fn, self, x, n, g, ro, factor_ok, padded, shift_holder, pre, extra_inst)
-
-
-def generic_wf_kk(S, I, fn, self, x, n, g, ro, factor_ok, padded, shift_holder, pre, extra_inst):
-    native = nn_native("kaplan_kolmogorov", True, attrs=("g", "random_order"))
+    holder = {}
     orig_sjm = I.contracts["NonnegMean.sjm"]
 
     def sjm_hook(I_, fn_, args, kwargs):
         r = orig_sjm(I_, fn_, args, kwargs)
         xs = I_.trace.get("sjm_x", [])
-        if xs and "f" not in shift_holder and xs[-1].items is None:
-            shift_holder["f"] = sum_shift_lemma(S, x, xs[-1], g, n)
+        if xs and "xg" not in holder:
+            holder["xg"] = xs[-1]
+            holder["tg"] = args[2]
         return r
 
     I.contracts["NonnegMean.sjm"] = sjm_hook
-    generic_wf(S, I, fn, self, x, n, native, factor_ok=factor_ok,
+    zero = XR.const(0)
+
+    def mpad(k):
+        return mu_spec(Nspec, holder["tg"], holder["xg"].fold("+"), k)
+
+    def factor_ok(k, Fk):
+        return bimp(band(icmp(">=", k, 1), xcmp(">=", mpad(isub(k, 1)), zero)), pos_or_inf(Fk))
+
+    mono_holder = {}
+
+    def mono(k):
+        """padded null mean >= 0 before draw k (k >= 1)  =>  > 0 before draw k-1   (modular, from the running-sum unfolding)"""
+        if "inst" not in mono_holder:
+            c = ctx()
+            xg = holder["xg"]
+            PS = xg.fold("+")
+            k0 = z3.Int(c.fresh("mono_k"))
+            c.index_terms_add(k0)
+            xk = xg.at(mkint(isub(k0, 1)))
+            goal = lambda q: bimp(band(icmp(">=", q, 1), xcmp(">=", mpad(q), zero)), xcmp(">", mpad(isub(q, 1)), zero))
+            hyps = [k0 >= 1, k0 < zi(n), zi(n) <= zi(iterm(Nspec)), xcmp(">", xk, zero),
+                    xsame(PS.at(k0), xadd(PS.at(mkint(isub(k0, 1))), xk))]
+            r = S.prove_using("padded null mean: nonnegative now => positive one draw earlier", goal(k0), hyps, opaque=[])
+            ok = r.status == "proved"
+
+            def inst(q):
+                if ok:
+                    c.assume(bimp(band(icmp(">=", q, 0), icmp("<", q, n)), goal(zi(q))))
+                return ok
+            mono_holder["inst"] = inst
+        return mono_holder["inst"](k)
+
+    def pre(k):
+        if "xg" in holder and holder["xg"].items is None:
+            for q in (k, k + 1, k - 1):
+                mono(q)
+
+    generic_wf(S, I, fn, self, x, n, nn_native("kaplan_kolmogorov", True, attrs=("g", "random_order")), factor_ok=factor_ok,
                hist_of=lambda T: xminimum(xdiv_np(ONE, T), ONE),
                p_of=lambda M: xmin_py(xdiv_np(ONE, M), XR.const(1)), agg="max", ro=ro,
-               entry_ok=pos_or_inf, pre_Q=pre, extra_inst=extra_inst, known=None if padded else "K4")
+               entry_ok=pos_or_inf, pre_Q=pre, extra_inst=lambda q: pre(zi(q)), known=None if padded else "K4")
 
 
 @script(["C11", "C01"], "NonnegMean.wald_sprt/well-formed", variants=(("finiteN", "inside"), ("infN", "inside"), ("finiteN", "any")))
